@@ -20,6 +20,13 @@ precisions = st.sampled_from(["float32", "float64"])
 
 def floats(lo, hi, width=64):
     """finite floats; subnormals are never requested (-Ofast kernels set FTZ/DAZ in-process)."""
+    if width == 32:  # bounds must be representable: move them inwards onto the float32 grid
+        l32, h32 = np.float32(lo), np.float32(hi)
+        if float(l32) < lo:
+            l32 = np.nextafter(l32, np.float32(np.inf))
+        if float(h32) > hi:
+            h32 = np.nextafter(h32, np.float32(-np.inf))
+        lo, hi = float(l32), float(h32)
     return st.floats(min_value=lo, max_value=hi, allow_nan=False, allow_infinity=False,
                      allow_subnormal=False, width=width)
 
